@@ -15,11 +15,11 @@ import urllib.parse
 from .. import core, gen, obs
 
 NEVER = "__never__"
-STRS = ["", "a", "ab", "AbC", "hello world", "x/y", "1", "007", "-5", "+3", "1.5", "2.50", "1e3", "abc", "true", "TRUE", "False", "é", "ÀB", " 7", "7 ", "0x10",
+STRS = ["", "a", "ab", "AbC", "hello world", "x/y", "1", "007", "-5", "+3", "1.5", "2.50", "1e3", "abc", "true", "TRUE", "False", "tRuE", "fAlSe", "é", "ÀB", " 7", "7 ", "0x10",
         "a%20b", "%41%42", "100%25", "a+b", "9223372036854775807", "9223372036854775808"]
 MIXED = [5, -2, 0, 1.5, -2.75, 7.0, True, False, None, [1], {"k": 1}]
-FLOAT_RE = re.compile(r"^[+-]?(\d+\.?\d*([eE][+-]?\d+)?|\.\d+([eE][+-]?\d+)?)$")
-INT_RE = re.compile(r"^[+-]?\d+$")
+FLOAT_RE = re.compile(r"^[+-]?(\d+\.?\d*([eE][+-]?\d+)?|\.\d+([eE][+-]?\d+)?)$", re.ASCII)      # ASCII digits only: Python's int()/float() also accept other scripts
+INT_RE = re.compile(r"^[+-]?\d+$", re.ASCII)
 
 
 class Unspec(Exception):
@@ -428,6 +428,15 @@ def shard(ctx):
             ctx.violation("json_parse:roundtrip", "json_parse(JSON text of D) != D or not usable as a value: %s for D=%s" % (st, json.dumps(d)[:300]), {"rules": rules, "data": doc2, "fname": "json_parse", "roundtrip": True})
         else:
             ctx.res.distinct.add(("json-roundtrip", len(json.dumps(d)) // 50))
+    # ---- boolean / numeric spellings one by one (a list argument stops at its first unparsable member, so each spelling is its own call)
+    if ctx.mine(5):
+        for sp in ["true", "True", "TRUE", "tRuE", "fAlSe", "FALSE", "false", "False", "TrUe", "yes", "no", "1", "0", "t", "", " true", "true "]:
+            judge(ctx, "parse_boolean", "literal", rule_text([], "parse_boolean(%s)" % gen.glit(sp)), [[sp]], "spelling")
+            judge(ctx, "parse_boolean", "variable", rule_text([("v", gen.glit(sp))], "parse_boolean(%v)"), [[sp]], "spelling")
+        for sp in ["0", "-0", "+7", "007", "1_000", "1e3", "1.0", "0x1F", " 5", "5 ", "٣", "9223372036854775807", "-9223372036854775808", "-9223372036854775809"]:
+            judge(ctx, "parse_int", "literal", rule_text([], "parse_int(%s)" % gen.glit(sp)), [[sp]], "spelling")
+        for sp in ["0", "-0.0", "+7.5", ".5", "5.", "1e3", "1E-3", "1e", "e3", "0x1p3", "1_0.0", " 1.5", "1,5", "١.٥"]:
+            judge(ctx, "parse_float", "literal", rule_text([], "parse_float(%s)" % gen.glit(sp)), [[sp]], "spelling")
     # ---- random strings through the unary string functions
     n = 60 if ctx.quick else 40000
     alphabet = "abXYeE z01925/%+-_.é"
